@@ -52,6 +52,8 @@ def plan(tier, seed):
         per = 300
     sh = common.shards({k: v for k, v in kinds.items() if k != "solver"}, per_shard=per, tier=tier, seed=seed, timeout_s=3000)
     sh += common.shards({"solver": kinds["solver"]}, per_shard=max(2, per // 20), tier=tier, seed=seed, timeout_s=3000)
+    # very long simulations: thousands of recorded frames (one case in the quick tier)
+    sh += common.shards({"long": 1 if tier == "quick" else 6}, per_shard=1, tier=tier, seed=seed, timeout_s=3000)
     return sh
 
 
@@ -110,6 +112,9 @@ def gen(rng, kind, tier):
         method = str(rng.choice(["structure_factor_mean", "structure_factor_maximum", "droplet_detection", "bogus"]))
         return {"grid": spec, "fields": [field_desc(rng, spec) for _ in range(n)], "times": _times(rng, n),
                 "method": method, "source": str(rng.choice(["none", "index", "callable", "callable-on-field"]))}
+    if kind == "long":
+        return {"frames": int(rng.choice([8400, 8400, 9100, 16500])), "cells": int(rng.integers(5, 9)),
+                "seed": int(rng.integers(1 << 30)), "minimal_radius": 0.0 if rng.random() < 0.5 else 0.6}
     if kind == "solver":
         n = int(rng.choice([16, 24, 32]))
         return {"pde": str(rng.choice(["cahn-hilliard", "diffusion"])), "n": n,
@@ -388,8 +393,55 @@ def run_solver(case, rec):
     rec.count(f"solver:{case['pde']}|frames:{len(dt_tr.data)}")
 
 
+def run_long(case, rec):
+    """A very long run on a tiny 1-D grid: the recorded time course, the file written at the end and the offline
+    analysis of the stored fields agree frame by frame."""
+    import droplets
+    import pde
+
+    n, N = case["cells"], case["frames"]
+    grid = pde.UnitGrid([n])
+    r = np.random.default_rng(case["seed"])
+    patterns = [(r.random(n) < 0.4).astype(float) for _ in range(5)] + [np.zeros(n)]
+    order = r.integers(0, len(patterns), N)
+    fields = [pde.ScalarField(grid, patterns[k]) for k in order]
+    times = [0.5 * k for k in range(N)]
+    scratch = Path(os.environ.get("VERIF_SCRATCH") or "/tmp")
+    path = str(scratch / f"c14_long_{os.getpid()}.h5")
+    tracker = droplets.DropletTracker(1, filename=path, minimal_radius=case["minimal_radius"])
+    label = f"{N} frames on UnitGrid([{n}]) seed={case['seed']}"
+    for f, t in zip(fields, times):
+        c = common.monitored(rec, "DropletTracker.handle", tracker.handle, f, t)
+        if not c.ok:
+            rec.check(False, "no-exception", f"DropletTracker.handle raised {common.exc_text(c.exc)} at t={t}; {label}")
+            rec.evaluated(nontrivial=False)
+            return
+    fin = common.monitored(rec, "finalize", tracker.finalize)
+    if rec.check(fin.ok, "no-exception", f"finalize raised {common.exc_text(fin.exc) if fin.exc else ''} after {N} frames; {label}"):
+        back = common.monitored(rec, "from_file", droplets.EmulsionTimeCourse.from_file, path)
+        if rec.check(back.ok, "no-exception", f"reading the file of a run with {N} frames raised {back.exc!r}; {label}"):
+            rec.check(snap(back.result) == snap(tracker.data), "file-roundtrip",
+                      f"the file written after {N} frames reads back different from the recorded data "
+                      f"({len(back.result)} frames read); {label}")
+    storage = pde.MemoryStorage()
+    storage.start_writing(fields[0])
+    for f, t in zip(fields, times):
+        storage.append(f, t)
+    off = common.monitored(rec, "from_storage", droplets.EmulsionTimeCourse.from_storage, storage,
+                           minimal_radius=case["minimal_radius"], progress=False)
+    if rec.check(off.ok, "no-exception", f"from_storage raised {off.exc!r}; {label}"):
+        rec.check(snap(tracker.data) == snap(off.result), "equals-offline",
+                  f"recorded time course of {N} frames differs from the offline analysis; {label}")
+    try:
+        os.remove(path)
+    except OSError:
+        pass
+    rec.evaluated(nontrivial=True)
+    rec.count(f"long_runs:{N}_frames")
+
+
 def run(case, rec):
-    {"direct": run_direct, "lengthscale": run_lengthscale, "solver": run_solver}[case["kind"]](case, rec)
+    {"direct": run_direct, "lengthscale": run_lengthscale, "solver": run_solver, "long": run_long}[case["kind"]](case, rec)
 
 
 def run_shard(spec, rec):
